@@ -565,3 +565,35 @@ def round_negative_precision_values(i: int, kind: int, pi: int) -> bool:
     ge = _one(T['rhe2'].evaluate(XPathContext(item=1, variables={'a': x, 'p': p})))
     want_type = (int, Decimal, float)[kind]
     return Fraction(gu) == up and Fraction(ge) == even and isinstance(gu, want_type) and isinstance(ge, want_type)
+
+
+# --- added after the round-4 baseline reports: integers beyond the range of xs:double --------------------------------------------------------
+
+HUGE = (10 ** 400, -10 ** 400, 10 ** 400 + 7, -(3 * 10 ** 309) - 1, 2 ** 1024, 17)
+HUGE_DIV = (3, -7, 10 ** 399, -(2 ** 1024) + 1, 10 ** 401)
+T_HUGE = parse_all({'x': '($a idiv $b, $a mod $b, $a + $b, $a - $b, $a * $b)'})['x']
+T_HUGE_D = parse_all({'idiv': '$a idiv $d', 'mod': '$a mod $d', 'ridiv': '$d idiv $a', 'rmod': '$d mod $a'})
+
+
+@ob(budget=200, bound='dividend from {10^400, -10^400, 10^400+7, -3*10^309-1, 2^1024, 17}, divisor from {3, -7, 10^399, 1-2^1024, 10^401} (indices chosen by the solver, '
+                      'values concrete on each path): idiv truncates toward zero, mod takes the sign of the dividend, a = (a idiv b)*b + (a mod b), + - * are exact; '
+                      'with an xs:double 1.5e0 on either side of idiv / mod the outcome is a double or an ElementPathError, never another exception',
+    funcs=[O2 + ':evaluate__idiv_operator', O1 + ':evaluate__mod_operator'])
+def huge_integer_division(ai: int, bi: int) -> bool:
+    """
+    pre: 0 <= ai <= 5 and 0 <= bi <= 4
+    post: _
+    """
+    a, b = HUGE[[k for k in range(6) if k == ai][0]], HUGE_DIV[[k for k in range(5) if k == bi][0]]
+    r = T_HUGE.evaluate(XPathContext(item=1, variables={'a': a, 'b': b}))
+    q = _trunc_div(a, b)
+    if r != [q, a - q * b, a + b, a - b, a * b] or not all(type(x) is int for x in r):
+        return False
+    for key in ('idiv', 'mod', 'ridiv', 'rmod'):
+        try:
+            x = _one(T_HUGE_D[key].evaluate(XPathContext(item=1, variables={'a': a, 'd': 1.5})))
+            if not isinstance(x, (int, float)):
+                return False
+        except ElementPathError:
+            pass
+    return True
